@@ -124,19 +124,33 @@ fn project(pc: &PeerConnection) -> Value {
             .collect();
         pts.sort_by_key(|v| v[0].as_u64());
         let ext: BTreeMap<u8, String> = t.get_extmap().into_iter().collect();
+        // the codec the sender stamps is a negotiated parameter of the transceiver too
+        let sender = t.sender().map(|s| {
+            let p = s.params();
+            json!([p.payload_type, p.name, p.clock_rate, p.channels])
+        });
         ts.push(json!({
             "kind": format!("{:?}", t.kind()),
             "mid": t.mid(),
             "dir": format!("{:?}", t.direction()),
             "pts": pts,
             "ext": ext.into_iter().map(|(k, v)| json!([k, v])).collect::<Vec<_>>(),
+            "sender": sender,
+            // EXT: identifiers that are not "negotiated parameters" in the sense of the statement
+            "ids": json!({
+                "sender_ssrc": t.sender_ssrc(), "sender_rtx_ssrc": t.sender_rtx_ssrc(),
+                "receiver_ssrc": t.receiver().map(|r| r.ssrc()), "receiver_rtx_ssrc": t.receiver().and_then(|r| r.rtx_ssrc()),
+            }),
         }));
     }
+    let (next_mid, dtls_role, remote_fp) = pc.verif_signaling_hidden();
     json!({
         "sig": sig_name(pc.signaling_state()),
         "local": slot(pc.local_description()),
         "remote": slot(pc.remote_description()),
         "transceivers": ts,
+        // EXT: state behind the API (read-only hook): MID counter, DTLS role, cached remote fingerprint
+        "hidden": json!({"next_mid": next_mid, "dtls_role": dtls_role, "remote_fp": remote_fp}),
     })
 }
 
@@ -149,7 +163,7 @@ fn first_diff(a: &Value, b: &Value) -> Option<(String, Value, Value)> {
     }
     let (ta, tb) = (a["transceivers"].as_array().unwrap(), b["transceivers"].as_array().unwrap());
     for (i, (x, y)) in ta.iter().zip(tb.iter()).enumerate() {
-        for f in ["mid", "dir", "pts", "ext", "kind"] {
+        for f in ["mid", "dir", "pts", "ext", "kind", "sender"] {
             if x[f] != y[f] {
                 return Some((format!("params.{f}"), json!({"transceiver": i, f: x[f]}), json!({"transceiver": i, f: y[f]})));
             }
@@ -159,6 +173,23 @@ fn first_diff(a: &Value, b: &Value) -> Option<(String, Value, Value)> {
         return Some(("transceivers.len".into(), json!(ta.len()), json!(tb.len())));
     }
     None
+}
+
+/// Differences outside the statement (EXT): hidden counters / roles and per-transceiver identifiers.
+fn ext_diff(a: &Value, b: &Value) -> Vec<(String, Value, Value)> {
+    let mut out = Vec::new();
+    for f in ["next_mid", "dtls_role", "remote_fp"] {
+        if a["hidden"][f] != b["hidden"][f] {
+            out.push((format!("hidden.{f}"), a["hidden"][f].clone(), b["hidden"][f].clone()));
+        }
+    }
+    let (ta, tb) = (a["transceivers"].as_array().unwrap(), b["transceivers"].as_array().unwrap());
+    for (i, (x, y)) in ta.iter().zip(tb.iter()).enumerate() {
+        if x["ids"] != y["ids"] {
+            out.push((format!("ids.transceiver{i}"), x["ids"].clone(), y["ids"].clone()));
+        }
+    }
+    out
 }
 
 fn failure_site(err: &str) -> &'static str {
@@ -427,6 +458,8 @@ struct Run {
     pc: PeerConnection,
     last_offer: Option<SessionDescription>,
     last_answer: Option<SessionDescription>,
+    /// sources of the tracks added by add_track (kept alive for the program)
+    sources: Vec<rustrtc::media::track::SampleStreamSource>,
 }
 
 /// The concrete description for a set_* call of type `t` and class `d`.
@@ -520,6 +553,24 @@ async fn exec(run: &mut Run, tm: &Tmpl, call: &Value, id: u64) -> Outcome {
             Ok(()) => Outcome::Ok,
             Err(p) => Outcome::Panic(p),
         },
+        "add_transceiver" => match catch(|| pc.add_transceiver(MediaKind::Video, TransceiverDirection::SendRecv)) {
+            Ok(_) => Outcome::Ok,
+            Err(p) => Outcome::Panic(p),
+        },
+        "create_data_channel" => match catch(|| pc.create_data_channel(&format!("verif-{id}"), None)) {
+            Ok(Ok(_)) => Outcome::Ok,
+            Ok(Err(e)) => Outcome::Err(e.to_string()),
+            Err(p) => Outcome::Panic(p),
+        },
+        "add_track" => {
+            let (source, track, _fb) = rustrtc::media::track::sample_track(rustrtc::media::MediaKind::Audio, 16);
+            run.sources.push(source);
+            match catch(|| pc.add_track(track, rustrtc::RtpCodecParameters::default())) {
+                Ok(Ok(_)) => Outcome::Ok,
+                Ok(Err(e)) => Outcome::Err(e.to_string()),
+                Err(p) => Outcome::Panic(p),
+            }
+        }
         "set_local" => {
             let d = pick(run, tm, "local", call["t"].as_str().unwrap(), call["d"].as_str().unwrap(), id);
             match catch(|| pc.set_local_description(d)) {
@@ -697,7 +748,7 @@ async fn run_program(mode: String, prog: Value, table: Arc<Table>, tm: Arc<Tmpl>
     } else {
         establish(&mode_media, &pre, &tm).await
     };
-    let mut run = Run { pc, last_offer: None, last_answer: None };
+    let mut run = Run { pc, last_offer: None, last_answer: None, sources: Vec::new() };
     // the model's view of the description slots (ids)
     let p0 = project(&run.pc);
     let mut m_sig = "Stable".to_string();
@@ -755,6 +806,12 @@ async fn run_program(mode: String, prog: Value, table: Arc<Table>, tm: Arc<Tmpl>
             r["observed"] = observed;
             out.push(r);
         };
+        // EXT: hidden state and identifiers across a call that did not succeed
+        if res != "Ok" {
+            for (field, b, a) in ext_diff(&before, &after) {
+                push(&mut out, "drift", "EXT", &field, b, a);
+            }
+        }
         // C09 second sentence: a call that did not succeed leaves everything as it was.
         if res != "Ok"
             && let Some((field, b, a)) = first_diff(&before, &after)
